@@ -281,6 +281,17 @@ func (fr *Frame) val(v ssa.Value) string {
 	if _, ok := fr.tuples[v]; ok {
 		panic(unsupported("tuple used as value"))
 	}
+	// interior pointers (&x.f, &a[i]) used as first-class values: opaque address
+	switch v.(type) {
+	case *ssa.FieldAddr, *ssa.IndexAddr:
+		if _, ok := fr.locs[v]; ok {
+			n := fr.vc.freshConst("iptr", "Int")
+			fr.vc.assume(fmt.Sprintf("(< 0 %s)", n))
+			fr.vals[v] = n
+			fr.vc.note("interior pointer %s in %s used as a value: treated as an opaque address", v.Name(), fr.fn.String())
+			return n
+		}
+	}
 	// parameters and free variables of the top-level function: declare on demand
 	switch v.(type) {
 	case *ssa.Parameter, *ssa.FreeVar:
@@ -904,6 +915,19 @@ func (fr *Frame) instr(b *ssa.BasicBlock, in ssa.Instruction, st *State, g strin
 		return fr.unop(st, g, x)
 	case *ssa.BinOp:
 		xt := x.X.Type()
+		if _, isSl := xt.Underlying().(*types.Slice); isSl && (x.Op == token.EQL || x.Op == token.NEQ) {
+			// comparison with nil: a slice is nil iff it has no backing array
+			other := x.X
+			if c, ok := x.X.(*ssa.Const); ok && c.Value == nil {
+				other = x.Y
+			}
+			t := eq(fmt.Sprintf("(sref %s)", fr.val(other)), "0")
+			if x.Op == token.NEQ {
+				t = not(t)
+			}
+			fr.def(x, t)
+			return st
+		}
 		t, ovf := vc.binop(x.Op, fr.val(x.X), fr.val(x.Y), xt, x.Y.Type())
 		if (x.Op == token.QUO || x.Op == token.REM) && isIntType(xt) {
 			fr.safety("div", g, not(eq(fr.val(x.Y), vc.intLitN(0, x.Y.Type()))), x.Pos(), "division by zero")
@@ -1081,6 +1105,10 @@ func (fr *Frame) closureLocal(mc *ssa.MakeClosure) bool {
 			}
 		case *ssa.Call:
 			if u.Call.Value != mc {
+				// closures handed to higher-order functions with built-in handling stay local
+				if callee := u.Call.StaticCallee(); callee != nil && canonFunc(callee) == "sort.Search" {
+					continue
+				}
 				return false
 			}
 		case *ssa.DebugRef:
